@@ -15,6 +15,7 @@ import ALV.Lemmas.C19FloatNeg
 import ALV.Lemmas.C19Twins
 import ALV.Lemmas.C19Misc
 import ALV.Lemmas.C19FloatBits
+import ALV.Lemmas.C19Src
 import Mathlib.Tactic.NormNum
 import ALV.Common.Audit
 
@@ -841,6 +842,105 @@ example : overflowOps.isZero (1/1000) = false ∧ overflowOps.trunc (overflowOps
     mcG overflowOps (.num 0) (.num 16) (.strm [1/1000, 1/1000, 1/1000]) 3 = ([0, 1/1000, 1/500], none) := by
   decide +kernel
 
+/-! ### the model regenerated from the source (translator `harness/props/c19_tr.py`)
+
+`ALV.Gen.C19.*` (file `ALV/Gen/C19Src.lean`) is rewritten from the text of `audiolazy/lazy_synth.py`
+on every run: the dispatch of `modulo_counter` on `isinstance(·, Iterable)`, its twelve loop bodies
+(every `% modulo` reduction counted where it stands), the length and slope expressions of `line`,
+`adsr`, `attack` with their guards, the calls in `fadein` / `fadeout` with `line`'s defaults.  The
+theorems `src_*_is_model` say that what the source says NOW is the code shaped model all the other
+theorems of this file are about; an edit of the source that changes the meaning breaks them. -/
+
+/-- **C19.src.1** `modulo_counter` as regenerated from the source is the code shaped model of today's
+code (`mcNow`: the recursive loops of `mcG`, batch size guarded as D28 was repaired), for every
+number type. -/
+theorem src_modulo_counter_is_model {α : Type} : @ALV.Gen.C19.modulo_counter α = @mcNow α := by
+  funext o a m s n; exact gen_modulo_counter o a m s n
+
+/-- **C19.src.2** where `int(modulo / step)` raises nothing the regenerated `modulo_counter` is `mcG`,
+the model of rounds 3–4 … -/
+theorem src_modulo_counter_eq_mcG {α : Type} (o : NumOps α) (A M S : Arg α) (n : Nat)
+    (h : ∀ m s, M = .num m → S = .num s → o.isZero s = false → ∃ k, o.trunc (o.div m s) = .ok k) :
+    ALV.Gen.C19.modulo_counter o A M S n = mcG o A M S n := by
+  rw [gen_modulo_counter, mcNow_eq_mcG o A M S n h]
+
+/-- **C19.src.3** … so over the exact operations it is the model `moduloCounter`, hence (C19.mc.1) the
+recursive layer of the three lock-stepped sequences, on every path, and raises nothing. -/
+theorem src_modulo_counter_exact (A M S : Arg K) (n : Nat) :
+    ALV.Gen.C19.modulo_counter fieldOps A M S n = (mcRec (A.expand n) (M.expand n) (S.expand n), none) := by
+  rw [src_modulo_counter_eq_mcG fieldOps A M S n (fun m s _ _ _ => ⟨_, rfl⟩), mcG_field, moduloCounter_rec]
+
+/-- **C19.src.4** (D28 as repaired) when `int(modulo / step)` raises, the source now runs the plain
+loop — the arithmetic of the call with `Stream(step)`. -/
+theorem src_modulo_counter_overflow_plain {α : Type} (o : NumOps α) (a m s : α) (n : Nat) (e : String)
+    (hs : o.isZero s = false) (he : o.trunc (o.div m s) = .error e) :
+    ALV.Gen.C19.modulo_counter o (.num a) (.num m) (.num s) n = gN o m s n a := by
+  rw [gen_modulo_counter, mcNow_overflow_plain o a m s n e hs he]
+
+/-- **C19.src.5** `line` as regenerated from the source is `lineG` … -/
+theorem src_line_is_model {α : Type} : @ALV.Gen.C19.line α = @lineG α := by
+  funext o dur b e fin n; exact gen_line o dur b e fin n
+
+/-- … hence the specification, for every duration. -/
+theorem src_line_eq_spec (dur b e : K) (fin : Bool) (n : Nat) :
+    ALV.Gen.C19.line fieldOps dur b e fin n = ((lineSpec dur b e fin).take n, none) := by
+  rw [gen_line, lineG_field]
+
+/-- **C19.src.6** `fadein(dur)` / `fadeout(dur)` as written (`line(dur)` with `line`'s defaults read from
+its signature, `line(dur, 1., 0.)`). -/
+theorem src_fadein_is_model {α : Type} (o : NumOps α) (dur : α) (n : Nat) :
+    ALV.Gen.C19.fadein o dur n = lineG o dur o.zero o.one false n := gen_line ..
+
+theorem src_fadeout_is_model {α : Type} (o : NumOps α) (dur : α) (n : Nat) :
+    ALV.Gen.C19.fadeout o dur n = lineG o dur o.one o.zero false n := gen_line ..
+
+/-- **C19.src.7** `adsr` as regenerated from the source is `adsrG` … -/
+theorem src_adsr_is_model {α : Type} : @ALV.Gen.C19.adsr α = @adsrG α := by
+  funext o dur a d s r n; exact gen_adsr o dur a d s r n
+
+/-- … hence the specification for non-negative times. -/
+theorem src_adsr_eq_spec (dur a d s r : K) (n : Nat) (ha : 0 ≤ a) (hd : 0 ≤ d) (hr : 0 ≤ r) :
+    ALV.Gen.C19.adsr fieldOps dur a d s r n = ((adsrSpec dur a d s r).take n, none) := by
+  rw [gen_adsr, adsrG_field dur a d s r n ha hd hr]
+
+/-- **C19.src.8** `attack` as regenerated from the source is `attackG`, except that an empty sustain
+iterable ends the envelope silently (D23 as repaired: `except StopIteration: return`). -/
+theorem src_attack_is_model {α : Type} : @ALV.Gen.C19.attack α = @attackNow α := by
+  funext o a d s n; exact gen_attack o a d s n
+
+theorem src_attack_eq_spec (a d x : K) (xs : List K) (n : Nat) :
+    ALV.Gen.C19.attack fieldOps a d (.num x) n = (attackSpec a d x (List.replicate n x) n, none) ∧
+    ALV.Gen.C19.attack fieldOps a d (.strm (x :: xs)) n = (attackSpec a d x xs n, none) ∧
+    ALV.Gen.C19.attack (fieldOps : NumOps K) a d (.strm []) n = ([], none) := by
+  refine ⟨?_, ?_, ?_⟩ <;> rw [gen_attack]
+  · exact attackG_field_num a d x n
+  · exact attackG_field_strm a d x xs n
+  · rfl
+
+/-- **C19.src.9** the defaults and decorators as written in the source are the documented ones. -/
+theorem src_defaults_are_documented :
+    ALV.Gen.C19.defaults = [("modulo_counter", "start", "0.0"), ("modulo_counter", "modulo", "256.0"),
+      ("modulo_counter", "step", "1.0"), ("line", "begin", "0.0"), ("line", "end", "1.0"),
+      ("line", "finish", "False")] ∧
+    ALV.Gen.C19.decorators = [("modulo_counter", ["tostream"]), ("line", ["tostream"]), ("fadein", []),
+      ("fadeout", []), ("attack", []), ("adsr", ["tostream"])] := by decide
+
+-- the regenerated definitions run: fast path with the batch boundary crossed, start a stream, …
+example : ALV.Gen.C19.modulo_counter (fieldOps : NumOps Rat) (.num 1) (.num 5) (.num 2) 6 = ([1, 3, 0, 2, 4, 1], none) ∧
+    ALV.Gen.C19.modulo_counter (fieldOps : NumOps Rat) (.strm [0, 1, 1, 3]) (.num 5) (.num 2) 6 = ([0, 3, 0, 4], none) ∧
+    ALV.Gen.C19.modulo_counter (fieldOps : NumOps Rat) (.num 7) (.strm [5, 3]) (.strm [1, 1]) 6
+      = ([2, 0], none) := by decide +kernel
+-- … the toy overflow of D28 now takes the plain loop, …
+example : ALV.Gen.C19.modulo_counter overflowOps (.num 0) (.num 16) (.num (1/1000)) 3 = ([0, 1/1000, 1/500], none) := by
+  decide +kernel
+-- … lines, envelopes
+example : ALV.Gen.C19.line (fieldOps : NumOps Rat) 4 1 3 false 9 = ([1, 3/2, 2, 5/2], none) ∧
+    ALV.Gen.C19.fadeout (fieldOps : NumOps Rat) 2 9 = ([1, 1/2], none) ∧
+    ALV.Gen.C19.adsr (fieldOps : NumOps Rat) 8 2 2 (1/2) 2 9 = ([0, 1/2, 1, 3/4, 1/2, 1/2, 1/2, 1/4], none) ∧
+    ALV.Gen.C19.attack (fieldOps : NumOps Rat) 2 0 (.strm [1/2, 7, 9]) 9 = ([0, 1/2, 7, 9], none) ∧
+    ALV.Gen.C19.attack (fieldOps : NumOps Rat) 2 2 (.strm []) 9 = ([], none) := by decide +kernel
+
 end ALV.Props.C19
+
 
 #write_audit "C19"
